@@ -230,7 +230,7 @@ func (h *intHeap) Pop() interface{} {
 `
 	// values are distinct per push (value*8 + serial keeps the pop order unique), so results do not
 	// depend on how equal elements are arranged
-	fs = append(fs, mk("container/heap", "container/heap", []*dom{rng("hheap", histSize(8, n), "int64", "int64(%s)"), ctl("heapinit", 0, 1)}, `
+	fs = append(fs, mk("container/heap", "container/heap", []*dom{rng("hheap", histSize(8, n-1), "int64", "int64(%s)"), ctl("heapinit", 0, 1)}, `
 hp := &intHeap{}
 if a1 == 1 {
 	hp.v = I32s{150, 120, 180, 110, 190, 130}
@@ -327,7 +327,7 @@ for _, op := range histOps(a0, 12) {
 	}
 }`).decls(histDecl).weight(20))
 
-	fs = append(fs, mk("container/ring", "container/ring", []*dom{rng("hring", histSize(9, n-1), "int64", "int64(%s)"), ctl("ringn", 0, 1, 3, 4)}, `
+	fs = append(fs, mk("container/ring", "container/ring", []*dom{rng("hring", histSize(9, n-1), "int64", "int64(%s)"), ctl("ringn", 1, 3, 4)}, `
 r := ring.New(int(a1))
 k := r.Len()
 p := r
@@ -340,9 +340,6 @@ extra.Value = int32(81)
 extra.Next().Value = int32(82)
 for _, op := range histOps(a0, 9) {
 	rI(int64(op))
-	if r == nil {
-		break
-	}
 	if op == 0 {
 		r = r.Next()
 	} else if op == 1 {
